@@ -272,14 +272,18 @@ class Prog:
                 self._emit(('char', charset(op, av, self.flags)))
             elif op is sc.SUBPATTERN:
                 g, add, dele, p = av
+                saved = self.flags
                 if add or dele:
-                    raise Unsupported('inline flags')
+                    if (add | dele) & ~(re.IGNORECASE | re.DOTALL | re.MULTILINE):
+                        raise Unsupported('inline flags')
+                    self.flags = (self.flags | add) & ~dele
                 if g and g in self.group_subst:
                     self._comp(self.group_subst[g])
                 else:
                     if g:
                         self.groups[g] = p
                     self._comp(p)
+                self.flags = saved
             elif op is sc.BRANCH:
                 alts = av[1]
                 jmps = []
@@ -976,3 +980,63 @@ def inner_separators(tree):
                 rec(av[3])
     rec(tree)
     return out
+
+
+def check_never_matches(rule_prog, spec_dfa, atoms, right_ok=ALL, allow_end=True, left_word=False, max_states=200000):
+    """For every u in L(spec) and every right context: the rule records NO match at any
+    position of u.c (it cannot win at the opener).  Returns (violations, states)."""
+    ex = Extent(rule_prog)
+    W = word_set()
+    NL = bit('\n')
+    live = spec_dfa.live_states()
+    viol, seen, n = [], set(), 0
+    work = [(((0,), left_word, spec_dfa.start, 0, False, True), '')]
+    while work:
+        cfg, w = work.pop()
+        if cfg in seen:
+            continue
+        seen.add(cfg)
+        n += 1
+        if n > max_states:
+            raise Unsupported('exploration too large')
+        raw, prevw, ss, phase, must_end, first = cfg
+        acc = phase == 0 and ss in spec_dfa.accept
+        if allow_end or phase == 1:
+            if (acc or phase == 1):
+                m, _ = ex.cut(ex.closure(raw, prevw, False, True, True, first))
+                if m:
+                    viol.append(('matches', w))
+        if must_end:
+            continue
+        for a in atoms:
+            r = rep(a)
+            nw = bool(a & W)
+            worlds = [(False, False)]
+            if a & NL and rule_prog.has('at'):
+                worlds.append((True, True))
+            for dollar, me in worlds:
+                lst = ex.closure(raw, prevw, nw, False, dollar, first)
+                m, surv = ex.cut(lst)
+                nraw = ex.step(surv, a)
+                if phase == 0:
+                    k = atoms.index(a)
+                    s2 = spec_dfa.delta[ss][k]
+                    if s2 in live:
+                        if m:
+                            # a match recorded inside a spec word: the rule matches a prefix -> it wins at the opener
+                            viol.append(('matches a prefix', w))
+                        elif nraw:
+                            work.append(((nraw, nw, s2, 0, me, False), w + r))
+                    if acc and (a & right_ok):
+                        if m:
+                            viol.append(('matches', w))
+                        elif nraw:
+                            work.append(((nraw, nw, None, 1, me, False), w + '│' + r))
+                else:
+                    if m:
+                        viol.append(('matches', w))
+                    elif nraw:
+                        work.append(((nraw, nw, None, 1, me, False), w + r))
+        if len(viol) > 3:
+            break
+    return viol, n
